@@ -118,7 +118,30 @@ def make_scores(case):
             warnings.simplefilter("ignore")
             return FraudScores(genuines=pos, frauds=neg, nb_easy_genuines=case["ep"], nb_easy_frauds=case["en"],
                                score_class="genuine" if case["sc"] == "pos" else "fraud")
-    return Scores(pos, neg, nb_easy_pos=case["ep"], nb_easy_neg=case["en"], score_class=case["sc"], equal_class=case["ec"])
+    s = Scores(pos, neg, nb_easy_pos=case["ep"], nb_easy_neg=case["en"], score_class=case["sc"], equal_class=case["ec"])
+    if case.get("via") == "smoothed" and len(pos) and len(neg):
+        # the object under test is DERIVED from the one above: a smoothed replacement bootstrap sample (kernel noise on
+        # the drawn scores).  It is a Scores object like any other; the property is checked against its own arrays.
+        from score_analysis import BootstrapConfig
+        np.random.seed(case.get("via_seed", 0))
+        s = s.bootstrap_sample(BootstrapConfig(sampling_method="replacement", smoothing=True))
+    return s
+
+
+def actual_case(case, s):
+    """the case describing the object s actually handed to the functions (differs from `case` for derived objects)"""
+    if not case.get("via"):
+        return case
+    return dict(case, pos=[enc(float(x)) for x in sorted(float(v) for v in s.pos)], neg=[enc(float(x)) for x in sorted(float(v) for v in s.neg)],
+                ep=int(s.nb_easy_pos), en=int(s.nb_easy_neg), exact=False)
+
+
+def effective(case, res):
+    """oracle / model side of actual_case: the arrays the driver recorded for a derived object"""
+    if case.get("via") and isinstance(res, dict) and "ok" in res and res["ok"].get("actual"):
+        a = res["ok"]["actual"]
+        return dict(case, pos=a["pos"], neg=a["neg"], ep=a["ep"], en=a["en"], exact=False)
+    return case
 
 
 def tau(case):
@@ -135,7 +158,21 @@ def run_thresholds(case):
     import numpy as np
 
     s = make_scores(case)
+    case = actual_case(case, s)
     targets = np.array([fl(t) for t in case["targets"]], dtype=float)
+    if case.get("warm_ci") and len(s.pos) and len(s.neg):
+        # history: a default (BCa) bootstrap interval of a ratio of error rates was computed on the object before; in some
+        # bootstrap samples the denominator is 0 and the replicate is infinite
+        import warnings
+        from score_analysis import BootstrapConfig
+        t0 = float(np.median(np.concatenate([s.pos, s.neg])))
+        np.random.seed(case.get("warm_ci"))
+        with warnings.catch_warnings():
+            warnings.simplefilter("ignore")
+            try:
+                s.bootstrap_ci(lambda o: np.float64(o.fnr(t0)) / np.float64(o.fpr(t0)), config=BootstrapConfig(nb_samples=30))
+            except Exception:
+                pass
     for w in case.get("warmup", []):
         try:
             getattr(s, "threshold_at_" + w)(np.array([0.0, 0.4, 1.0]))
@@ -158,6 +195,8 @@ def run_thresholds(case):
            "at": [enc(float(x)) for x in np.atleast_1d(met(thr))],
            "below": [enc(float(x)) for x in np.atleast_1d(met(thr - t))],
            "above": [enc(float(x)) for x in np.atleast_1d(met(thr + t))]}
+    if case.get("via"):
+        out["actual"] = {"pos": case["pos"], "neg": case["neg"], "ep": case["ep"], "en": case["en"]}
     return s, targets, thr, out
 
 
@@ -220,3 +259,32 @@ def achievable(case):
     if m == "topr":
         return Fraction(ep, tot), Fraction(ep + npos + nneg, tot), Fraction(1, tot)
     return Fraction(en, tot), Fraction(en + npos + nneg, tot), Fraction(1, tot)
+
+
+def mixed_dtype_probe(pos, neg, ep, en, sc, ec, targets):
+    """One class held as whole numbers in an integer array, the other as fractional floats: every threshold function gives
+    what it gives when both classes are float64 arrays with the same values (the identity map must not matter).
+    Returns a description of the first difference, or None."""
+    import numpy as np
+    from score_analysis import Scores
+
+    if not (len(pos) and len(neg)):
+        return None
+    for int_side in ("neg", "pos"):
+        ints = np.round(neg if int_side == "neg" else pos)
+        if np.max(np.abs(ints)) > 2 ** 40:
+            continue
+        fr = (pos if int_side == "neg" else neg) + 0.25
+        kw = dict(nb_easy_pos=ep, nb_easy_neg=en, score_class=sc, equal_class=ec)
+        a = Scores(fr, ints.astype(float), **kw) if int_side == "neg" else Scores(ints.astype(float), fr, **kw)
+        b = Scores(fr, ints.astype(np.int64), **kw) if int_side == "neg" else Scores(ints.astype(np.int64), fr, **kw)
+        for m in METRICS:
+            for method in ("linear", "lower", "higher"):
+                ta = np.asarray(getattr(a, "threshold_at_" + m)(targets, method=method), dtype=float)
+                tb = np.asarray(getattr(b, "threshold_at_" + m)(targets, method=method), dtype=float)
+                if not np.array_equal(ta, tb, equal_nan=True):
+                    return (f"threshold_at_{m}({[float(t) for t in targets][:4]}, method={method}) with the {int_side} class held as int64 "
+                            f"{[int(v) for v in ints][:6]} and the other class {[float(v) for v in fr][:6]}: {tb.tolist()[:4]}, with both classes "
+                            f"as float64: {ta.tolist()[:4]}")
+    return None
+
